@@ -32,6 +32,9 @@ type Check struct {
 	Finish func(c *Ctx, cov map[string]interface{}) string
 	// Serial forces a single worker.
 	Serial bool
+	// Child is run for `check <id> --child args...` (helper sub-processes
+	// that isolate fatal crashes); its return value is the exit status.
+	Child func(args []string) int
 }
 
 var VerifDir = "/verif"
@@ -60,6 +63,11 @@ func Main(checks map[string]*Check) {
 	}
 	seed, _ := strconv.ParseInt(os.Getenv("VERIF_SEED"), 10, 64)
 	switch os.Args[2] {
+	case "--child":
+		if ck.Child == nil {
+			usage()
+		}
+		os.Exit(ck.Child(os.Args[3:]))
 	case "--replay":
 		if len(os.Args) < 4 {
 			usage()
